@@ -46,7 +46,7 @@ func (e *simEnv) checkEmissions(res drive.Result, f *refmatch.Flow, js []judged,
 			break
 		}
 	}
-	after := 0
+	after, later := 0, 0
 	for k, em := range ems {
 		c.Count("probes_verified", 1)
 		if em.ParseErr != nil {
@@ -143,6 +143,9 @@ func (e *simEnv) checkEmissions(res drive.Result, f *refmatch.Flow, js []judged,
 		ids[id] = k
 		if !destSeen.IsZero() && em.Tick > destTick {
 			after++
+			if em.At.After(destSeen) {
+				later++
+			}
 		}
 		prev = em
 	}
@@ -160,6 +163,10 @@ func (e *simEnv) checkEmissions(res drive.Result, f *refmatch.Flow, js []judged,
 		}
 		if after > limit {
 			viol("send-after-dest", fmt.Sprintf("%d probes written after the destination reply was handed to the driver (allowed %d)", after, limit))
+		} else if later > 0 {
+			// "one already in flight": the excepted probe is one whose send had been decided when the answer came in,
+			// i.e. handed to the sink at that very (virtual) instant - never one emitted at a later instant
+			viol("send-after-dest", fmt.Sprintf("%d probe(s) handed to the sink at a later instant than the one at which the destination reply had been read (%s): not in flight, sent after the answer was seen", later, destSeen.Format("05.000000")))
 		}
 	}
 	// endpoints reported == endpoints on the wire
